@@ -266,6 +266,152 @@ def depth(chk, facts):
                where=g.where(), fn=g.name)
 
 
+def _root_local(f, operand, depth=8):
+    """Local a reference operand ultimately points into (through refs, copies, deref-like calls)."""
+    defs = panics._def_sites(f)
+    o = operand
+    for _ in range(depth):
+        if o[0] not in ("c", "m"):
+            return None
+        l = o[1][0]
+        if 1 <= l <= f.nargs:
+            return l
+        ds = defs.get(l, [])
+        if len(ds) != 1:
+            return l
+        kind, b, x = ds[0]
+        if kind == "st":
+            rv = x[2]
+            if rv[0] in ("ref", "addr"):
+                o = ["c", [rv[1][0]]]
+                if not [e for e in rv[1][1:] if e != "*"]:
+                    continue
+                return rv[1][0]
+            if rv[0] in ("use", "cast"):
+                o = rv[1] if rv[0] == "use" else rv[2]
+                continue
+            return l
+        c = callee(x)
+        if c.endswith(("::deref", "::deref_mut", "::as_ref", "::as_mut", "::as_slice", "::as_mut_slice", "::borrow", "::as_str")) and x[2]:
+            o = x[2][0]
+            continue
+        return l
+    return None
+
+
+def index_len(chk, facts):
+    """Idiom re-proved on every run: when an index is derived from a length, it is the length of the
+    container being indexed (or of what the container was sized with)."""
+    rule = "C20.INDEX.len"
+    from lib import shape
+    n = 0
+    held = 0
+    try:
+        exc = json.load(open(os.path.join(ROOT, "tables", "index_len_exceptions.json")))
+    except OSError:
+        exc = {}
+    used = {}
+    for u in UNITS:
+        facts.load_crate(u)
+        for name in facts.unit_fns(u):
+            gen, kind, root, ti, file, line = facts.fns.meta(name)
+            if gen or panics.is_derive(facts.fns.fnmac(name)):
+                continue
+            f = facts.fns[name]
+            idx_sites = [(b, t) for b, t in f.calls() if (t[1].get("o") or "") in ("std::ops::Index::index", "std::ops::IndexMut::index_mut")
+                         and ("Vec<" in callee(t) or "[T]" in callee(t) or "impl std::ops::Index<I> for str" in callee(t) or "String" in callee(t))]
+            if not idx_sites:
+                continue
+
+            def cl(c, t, f=f):
+                if c.endswith(("::len", "::count")) and t[2]:
+                    r = _root_local(f, t[2][0])
+                    return ["LEN:_%s" % r] if r is not None else None
+                return None
+            L = shape.Labels(f, None, None, call_labels=cl)
+            for b, t in idx_sites:
+                if len(t[2]) < 2:
+                    continue
+                I = {x for x in L.operand_labels(t[2][1]) if x.startswith("LEN:")}
+                if not I:
+                    continue
+                croot = _root_local(f, t[2][0])
+                C = {x for x in L.operand_labels(t[2][0]) if x.startswith("LEN:")}
+                if croot is not None:
+                    C.add("LEN:_%s" % croot)
+                    C |= {x for x in L.lab.get(croot, set()) if x.startswith("LEN:")}
+                ok = I <= C
+                n += 1
+                if not ok and name in exc and used.get(name, 0) < exc[name]["count"]:
+                    used[name] = used.get(name, 0) + 1
+                    held += 1
+                    chk.ob(rule, "%s@L%s" % (short(name)[-50:], t[1].get("l")), True,
+                           "index bounded by the length of another value; reviewed exception: %s" % exc[name]["why"], where=f.where(t[1].get("l")), fn=name,
+                           sample={"fn": short(name), "exception": exc[name]["why"]})
+                    continue
+                held += ok
+                if not ok or n <= 6:
+                    chk.ob(rule, "%s@L%s" % (short(name)[-50:], t[1].get("l")), ok,
+                           "index derives from length(s) %s; the indexed container is sized by %s%s" % (sorted(I), sorted(C), "" if ok else
+                                                                                                       " — a length of a DIFFERENT value bounds this index (out-of-bounds when the two lengths differ)"),
+                           where=f.where(t[1].get("l")), fn=name, key="%s:%s" % (rule, name), sample={"fn": short(name), "index_lengths": sorted(I), "container_lengths": sorted(C)})
+    chk.ob(rule, "summary", held == n, "%d length-derived index sites; %d index a container sized by the same length" % (n, held), sample={"sites": n, "held": held})
+    chk.floor(rule, "length-derived index sites", n, 3)
+
+
+UNICODE_CLASSES = ("\\d", "\\w", "\\s", "\\p{", "\\D", "\\W")
+
+
+def regex_digits(chk, facts):
+    """`capture.parse::<int>().unwrap()` is infallible only if the regex admits ASCII digits only."""
+    rule = "C20.REGEX.digits"
+    n = 0
+    for u in UNITS:
+        facts.load_crate(u)
+        for name in facts.unit_fns(u):
+            gen, kind, root, ti, file, line = facts.fns.meta(name)
+            if gen or panics.is_derive(facts.fns.fnmac(name)):
+                continue
+            f = facts.fns[name]
+            parse_unwraps = [s for s in panics.sites(f) if s["kind"] in ("unwrap", "expect") and "str>::parse" in s["detail"]]
+            if not parse_unwraps:
+                continue
+            base = f.root or name
+            bodies = [facts.fns[base]] + facts.closures_of(base) if base in facts.fns else [f]
+            statics = set()
+            for g in bodies:
+                for _, s in g.stmts():
+                    if s[0] == "a":
+                        for o in (s[2][2] if s[2][0] == "agg" else [s[2][1]] if s[2][0] in ("use",) else []):
+                            if isinstance(o, list) and o[0] == "k" and "static" in o[1]:
+                                statics.add(o[1]["static"])
+            for st in sorted(statics):
+                rec = facts.statics.get(st)
+                if not rec or "regex::Regex" not in rec["ty"]:
+                    continue
+                init = facts.fn(st + "::{closure#0}")
+                pat = None
+                if init is not None:
+                    for _, t in init.calls():
+                        for o in t[2]:
+                            if o[0] == "k" and "s" in o[1]:
+                                pat = o[1]["s"]
+                    for _, s in init.stmts():
+                        if s[0] == "a" and s[2][0] == "use" and s[2][1][0] == "k" and "s" in s[2][1][1] and pat is None:
+                            pat = s[2][1][1]["s"]
+                if pat is None:
+                    continue
+                bad = [c for c in ("\\d", "\\w", "\\p{", "\\pN") if c.replace("\\\\", "\\") in pat] if False else [c for c in ("\\d", "\\w", "\\p{") if c in pat]
+                ascii_only = "(?-u" in pat
+                n += 1
+                chk.ob(rule, "%s<-%s" % (short(base)[-40:], st.split("::")[-1]), not bad or ascii_only,
+                       "%s unwraps integer parses of captures of %s = /%s/; %s" % (short(base), st.split("::")[-1], pat,
+                                                                                 "all digit classes are ASCII" if (not bad or ascii_only) else
+                                                                                 "class %s also matches non-ASCII digits, on which str::parse fails and the unwrap panics" % bad),
+                       where=f.where(parse_unwraps[0]["line"]), fn=name, key="%s:%s:%s" % (rule, base, st), sample={"fn": short(base), "regex": st.split("::")[-1], "pattern": pat})
+    chk.floor(rule, "regex-guarded integer parses", n, 3)
+
+
 def run(chk, facts, tier):
     chk.explanation = (
         "Static panic-freedom discipline on the current MIR of cedar-policy-core, cedar-policy and cedar-policy-formatter: "
@@ -285,3 +431,5 @@ def run(chk, facts, tier):
     facts.load_crate("cedar_policy_core.lib")
     dispatch(chk, facts)
     depth(chk, facts)
+    index_len(chk, facts)
+    regex_digits(chk, facts)
